@@ -364,6 +364,25 @@ static std::string outpath_for(const Plan& p, const std::string& root) {
     }
 }
 
+// offsets at which a module file can be cut "between" sections: right in front of a section id, after the id, after its size field
+static const std::vector<long>& section_cuts(const std::string& path) {
+    static std::map<std::string, std::vector<long>> cache;
+    auto it = cache.find(path); if (it != cache.end()) return it->second;
+    std::vector<long>& v = cache[path];
+    FILE* f = __real_fopen(path.c_str(), "rb"); if (!f) return v;
+    std::vector<unsigned char> b; unsigned char buf[65536]; size_t n; while ((n = fread(buf, 1, sizeof buf, f)) > 0) b.insert(b.end(), buf, buf + n); __real_fclose(f);
+    size_t i = 8;
+    while (i < b.size()) {
+        v.push_back((long)i); v.push_back((long)i + 1);
+        size_t j = i + 1; uint64_t len = 0; int sh = 0;
+        while (j < b.size()) { unsigned char c = b[j++]; len |= (uint64_t)(c & 0x7F) << sh; sh += 7; if (!(c & 0x80)) break; }
+        v.push_back((long)j);
+        if (len > b.size()) break;
+        i = j + (size_t)len;
+    }
+    return v;
+}
+
 static Plan make_plan(const std::string& prop, uint64_t root, uint64_t idx, bool c10_enum) {
     Plan p; p.prop = prop;
     uint64_t gid = g_sweep ? idx + 0x5EE9000000ull : c10_enum ? idx / 4096 : idx / 128;
@@ -420,7 +439,13 @@ static Plan make_plan(const std::string& prop, uint64_t root, uint64_t idx, bool
     if (prop == "C10" && !g_sweep) {
         long sz = ce.size;
         if (c10_enum) { long k = (long)(idx % 4096); p.trunc = (k == 0) ? -1 : (k < sz ? k : -2); }
-        else if (r.below(4) != 0 && sz > 1) { p.trunc = r.below(3) == 0 ? (long)r.below((uint32_t)std::min<long>(sz, 64)) + 1 : 1 + (long)r.below((uint32_t)(sz - 1)); if (p.trunc >= sz) p.trunc = sz - 1; }
+        else if (r.below(4) != 0 && sz > 1) {
+            p.trunc = r.below(3) == 0 ? (long)r.below((uint32_t)std::min<long>(sz, 64)) + 1 : 1 + (long)r.below((uint32_t)(sz - 1));
+            // a third of the truncated runs cut exactly at a section boundary (a prefix that ends with complete sections parses furthest)
+            if (r.below(3) == 0) { const std::vector<long>& cuts = section_cuts(ce.wasm); if (!cuts.empty()) p.trunc = cuts[r.below((uint32_t)cuts.size())]; }
+            if (p.trunc >= sz) p.trunc = sz - 1;
+            if (p.trunc < 1) p.trunc = 1;
+        }
     }
     if (prop == "C10" && !g_sweep && p.trunc < 0 && r.below(3) == 0) {
         // an output file that cannot be opened or whose close fails: the run may fail, it must stay memory-safe
